@@ -70,7 +70,9 @@ UnyieldedReplies == \E r \in BoundHealthy : rpend[r] > 0
 UnobservedReplierEnd == \E r \in BoundHealthy : rended[r] = "signalled"
 \* C08: when a peer has failed in this run, what is still owed to the healthy ones is also harm done by it
 PeerFailed == (\E c \in Cls : cstat[c] # "no" /\ ~chealthy[c]) \/ (\E r \in Rps : rstat[r] # "no" /\ ~rhealthy[r])
-Harm(props) == IF PeerFailed THEN props \cup {"C08"} ELSE props
+\* C10: "the bound replier's traffic is unaffected" by a replier that registers while it is bound
+ReplierRejected == \E r \in Rps : rstat[r] = "rejected" \/ rej[r] # <<>>
+Harm(props) == (IF PeerFailed THEN props \cup {"C08"} ELSE props) \cup (IF ReplierRejected THEN {"C10"} ELSE {})
 UnflushedReplies == \E c \in Cls : cstat[c] = "live" /\ chealthy[c] /\ cflushed[c] # Len(crecv[c])
 UnflushedRequests == \E r \in BoundHealthy : rflushed[r] # Len(rgot[r])
 SkippedNonDroppable(c, n) ==
@@ -182,8 +184,8 @@ Step(e) ==
                                             IF "wire_ok" \in DOMAIN e THEN "requestor_stream_corrupted_by_an_earlier_refused_frame"
                                             ELSE "reply_not_intact")
             ELSE IF CanHandReply(e.id, e.item[2]) THEN HandReply(e.id, e.item[2]) /\ UNCHANGED mon
-            ELSE Flag({"C02"}, IF \E i \in 1..Len(crecv[e.id]) : crecv[e.id][i] = <<e.id, e.item[2]>>
-                               THEN "duplicate_reply" ELSE "reply_skipped_or_reordered")
+            ELSE Flag(Harm({"C02"}), IF \E i \in 1..Len(crecv[e.id]) : crecv[e.id][i] = <<e.id, e.item[2]>>
+                                     THEN "duplicate_reply" ELSE "reply_skipped_or_reordered")
       [] e.ev \in {"si_ready", "si_flush"} /\ e.role = "sv" /\ e.res = "err" ->
             \* the replier's connection failed and the router has now been told
             IF e.id \in Rps /\ ~rhealthy[e.id]
